@@ -81,6 +81,16 @@ func facts(repo string, w io.Writer) error {
 	}
 	fmt.Fprintln(w, "(* pkg/receive/hashring.go getShardSize: is an unset tenant_matcher_type treated as exact? *)")
 	fmt.Fprintf(w, "Definition unset_is_exact : bool := %s.\n", common.Bool(found))
+	gd, err := s.FindFunc("shuffleShardHashring.getTenantShard")
+	if err != nil {
+		return err
+	}
+	op, err := hashringutil.SearchPredicate(gd, s.ExprString, "azSections[idx].hash", "randomPos")
+	if err != nil {
+		return err
+	}
+	fmt.Fprintln(w, "(* getTenantShard: sort.Search(len(azSections), func(idx int) bool { return azSections[idx].hash <op> randomPos }) *)")
+	fmt.Fprintf(w, "Definition shard_search_pred (hash pos : Z) : bool := (hash %s pos).\n", op)
 	return nil
 }
 
@@ -379,5 +389,5 @@ func gen(r *rand.Rand, tier string, n int) []any {
 }
 
 func main() {
-	common.Main(common.Prop{ID: "C21", Facts: facts, Gen: gen, Run: run, QuickN: 300, ThoroughN: 5000})
+	common.Main(common.Prop{ID: "C21", Facts: facts, Gen: gen, Run: run, QuickN: 300, ThoroughN: 3000})
 }
